@@ -91,6 +91,90 @@ pub fn observe(c: &PCase) -> u64 {
     }
 }
 
+// ---------------------------------------------------------------- (e) first-use orders
+
+pub const ORDER_VERSIONS: [usize; 8] = [1, 2, 3, 5, 7, 10, 20, 40];
+
+/// the version sequence of order `o`: ascending, descending, the rotations that put 2, 3, 5, 7 first, and a zig-zag
+pub fn order_sequence(o: usize) -> Vec<usize> {
+    let v = ORDER_VERSIONS.to_vec();
+    match o {
+        0 => v,
+        1 => v.into_iter().rev().collect(),
+        2..=5 => {
+            let mut w = v;
+            w.rotate_left(o - 1);
+            w
+        }
+        _ => vec![40, 1, 20, 2, 10, 3, 7, 5],
+    }
+}
+pub const N_ORDERS: usize = 7;
+
+/// child side: builds and renders the same set of symbols in the order `o`; one "K <key> <digest>" line per observation
+pub fn order_main(args: &[String]) -> i32 {
+    use fast_qr::convert::image::ImageBuilder;
+    use fast_qr::convert::Shape;
+    let o: usize = match args.first().and_then(|a| a.parse().ok()) {
+        Some(o) => o,
+        None => return 2,
+    };
+    for v in order_sequence(o) {
+        let input = crate::spaces::content(crate::spaces::Family::Ctr, 2, crate::refmodel::cap(v, 1, 2) / 2);
+        for k in 0..8u8 {
+            let d = subject::outcome_digest(&subject::build(&input, &Opts { mode: Some(2), ecl: Some(1), version: Some(v as u8), mask: Some(k), order: 0 }));
+            println!("K b{}m{} {}", v, k, d);
+        }
+        let auto = subject::build(&input, &Opts { mode: None, ecl: Some(1), version: None, mask: None, order: 0 });
+        println!("K b{}auto {}", v, subject::outcome_digest(&auto));
+        if let Outcome::Ok(q) = &auto {
+            let t = subject::guarded(|| q.to_str()).map(|s| crate::util::fnv(s.as_bytes())).unwrap_or(3);
+            println!("K t{} {}", v, t);
+            let sv = subject::guarded(|| SvgBuilder::default().to_str(q)).map(|s| crate::util::fnv(s.as_bytes())).unwrap_or(3);
+            println!("K s{} {}", v, sv);
+            let si = subject::guarded(|| {
+                let mut b = SvgBuilder::default();
+                b.shape(Shape::RoundedSquare).shape_color(Shape::Circle, [255, 0, 0, 255]).margin(2).image("logo.png".to_string());
+                b.to_str(q)
+            })
+            .map(|s| crate::util::fnv(s.as_bytes()))
+            .unwrap_or(3);
+            println!("K si{} {}", v, si);
+            if v <= 10 {
+                let p = subject::guarded(|| ImageBuilder::default().to_bytes(q).unwrap_or_default()).map(|b| crate::util::fnv(&b)).unwrap_or(3);
+                println!("K p{} {}", v, p);
+                let pf = subject::guarded(|| {
+                    let mut b = ImageBuilder::default();
+                    b.fit_width(300).shape(Shape::Circle);
+                    b.to_bytes(q).unwrap_or_default()
+                })
+                .map(|b| crate::util::fnv(&b))
+                .unwrap_or(3);
+                println!("K pf{} {}", v, pf);
+            }
+        }
+    }
+    println!("DONE");
+    0
+}
+
+pub fn order_child(o: usize) -> Result<BTreeMap<String, u64>, String> {
+    let exe = std::env::current_exe().map_err(|e| e.to_string())?;
+    let out = std::process::Command::new(exe).arg("c14-order").arg(o.to_string()).stderr(std::process::Stdio::null()).output().map_err(|e| e.to_string())?;
+    let txt = String::from_utf8_lossy(&out.stdout).to_string();
+    if !out.status.success() || !txt.lines().any(|l| l == "DONE") {
+        return Err(format!("order child {} did not finish: {:?}", o, out.status));
+    }
+    let mut m = BTreeMap::new();
+    for l in txt.lines().filter(|l| l.starts_with("K ")) {
+        let mut it = l[2..].split(' ');
+        if let (Some(k), Some(d)) = (it.next(), it.next().and_then(|d| d.parse::<u64>().ok())) {
+            m.insert(k.to_string(), d);
+        }
+    }
+    Ok(m)
+}
+
 /// child side: one case per stdin line, one digest per stdout line, in the order given
 pub fn pristine_main() -> i32 {
     let stdin = std::io::stdin();
@@ -535,6 +619,31 @@ pub fn replay(case: &Value) -> Result<Vec<(String, String)>, String> {
             let expect = pristine_each(&needed)?;
             Ok(run_history(input, &seq, &expect, None, idx).into_iter().map(|(k, w)| (format!("C14/{}", k), w)).collect())
         }
+        "alias" => {
+            let input = crate::util::unhex(case.get("input_hex").and_then(|x| x.as_str()).ok_or("input_hex")?).ok_or("hex")?;
+            let key = PCase { input: input.clone(), opts: Opts::default(), render: Render::None };
+            let exp = pristine_each(&[key.clone()])?;
+            let live: Vec<QRBuilder> = (0..64).map(|_| QRBuilder::new(input.clone())).collect();
+            let mut out = vec![];
+            for (j, b) in live.iter().enumerate() {
+                let got = subject::outcome_digest(&match subject::guarded(|| b.build()) {
+                    Ok(r) => subject::classify(r),
+                    Err(m) => Outcome::Panic(m),
+                });
+                if exp.get(&key) != Some(&got) {
+                    out.push(("C14/address-dependent-build".to_string(), format!("builder #{} differs from the pristine build", j)));
+                    break;
+                }
+            }
+            Ok(out)
+        }
+        "first-use-order" => {
+            let a = case.get("order_a").and_then(|x| x.as_u64()).ok_or("order_a")? as usize;
+            let b = case.get("order_b").and_then(|x| x.as_u64()).ok_or("order_b")? as usize;
+            let key = case.get("key").and_then(|x| x.as_str()).ok_or("key")?;
+            let (ma, mb) = (order_child(a)?, order_child(b)?);
+            Ok(if ma.get(key) != mb.get(key) { vec![("C14/first-use-order-dependent".to_string(), format!("observation {} differs between the two orders", key))] } else { vec![] })
+        }
         "tie-after" => {
             let t = crate::util::unhex(case.get("input_hex").and_then(|x| x.as_str()).ok_or("input_hex")?).ok_or("hex")?;
             let p = crate::util::unhex(case.get("previous_hex").and_then(|x| x.as_str()).ok_or("previous_hex")?).ok_or("hex")?;
@@ -641,7 +750,7 @@ fn judge_execution(p: &Program, results: &[Option<Vec<u64>>], expect: &HashMap<P
 
 pub fn run(ctx: &Ctx) -> Collector {
     let col = Collector::new("C14", "model_checking");
-    col.set_rule("(a) E2 builder histories: for 4 inputs (numeric, alphanumeric, bytes, lower-case text that is alphanumeric once upper-cased) ALL sequences of exactly depth D (quick 4, thorough 5; every shorter history is a prefix) over {mode(each the input or its upper-case form allows), ecl(L|H), version(1|2|7), mask(all 8), build, other1..other4 (unrelated builds on builders that are dropped; 3 and 4 are fully automatic, of equal length and different character classes)} replayed on a fresh real QRBuilder; model state = option tuple; oracle at every build step: digest of (all 177x177 module bytes, size, four fields, or error kind) = digest computed by a fresh builder with the model tuple in a PRISTINE child process (one process per tuple); unrelated builds interleaved must equal their pristine values too. (b) E2 renderer histories: all sequences to depth 4 over {8 SvgBuilder setters, svg(q1|q2), term(q1|q2)} and to depth 3 (thorough 4) over {5 ImageBuilder setters, png(q1|q2)}: every render = render of a fresh renderer built from the model state, the QRCode digest is unchanged after every render, and all distinct (state, symbol) renders are recomputed in reverse order in a fresh child process. (c) E3 schedules: 7 thread programs (2-3 real threads, 1-2 operations each, incl. two threads sharing one &QRBuilder) under the controlled scheduler at the guarded scheduling points: all interleavings with <= b preemptions (iterative bounding; fine point set and coarse point set, bounds in the evidence); oracle: every thread's result = its sequential pristine result; vacuity guard: racy canary outcomes. (d) E3-fine: the same scheduler driven by function-entry events of a second build of fast_qr (opt-level 0, -Zinstrument-mcount, nightly): 5 (thorough 8) thread programs incl. terminal and SVG renders of two sizes in opposite orders; all interleavings with <= 1 preemption at the first k (quick 1, thorough 3) entries of every (function, call site) pair per operation; expectations from fresh single-threaded processes. Supplementary (sampling, not part of the verdict basis): free-running 16-thread pass. non-trivial = a build or render was observed; distinct = distinct observation digests");
+    col.set_rule("(a) E2 builder histories: for 4 inputs (numeric, alphanumeric, bytes, lower-case text that is alphanumeric once upper-cased) ALL sequences of exactly depth D (quick 4, thorough 5; every shorter history is a prefix) over {mode(each the input or its upper-case form allows), ecl(L|H), version(1|2|7), mask(all 8), build, other1..other4 (unrelated builds on builders that are dropped; 3 and 4 are fully automatic, of equal length and different character classes)} replayed on a fresh real QRBuilder; model state = option tuple; oracle at every build step: digest of (all 177x177 module bytes, size, four fields, or error kind) = digest computed by a fresh builder with the model tuple in a PRISTINE child process (one process per tuple); unrelated builds interleaved must equal their pristine values too. (b) E2 renderer histories: all sequences to depth 4 over {8 SvgBuilder setters, svg(q1|q2), term(q1|q2)} and to depth 3 (thorough 4) over {5 ImageBuilder setters, png(q1|q2)}: every render = render of a fresh renderer built from the model state, the QRCode digest is unchanged after every render, and all distinct (state, symbol) renders are recomputed in reverse order in a fresh child process. (e) first-use orders: the forced-mask builds, automatic build and renders of versions 1,2,3,5,7,10,20,40 in 7 fresh processes that go through the versions in different orders; every observation equal across processes. (c) E3 schedules: 7 thread programs (2-3 real threads, 1-2 operations each, incl. two threads sharing one &QRBuilder) under the controlled scheduler at the guarded scheduling points: all interleavings with <= b preemptions (iterative bounding; fine point set and coarse point set, bounds in the evidence); oracle: every thread's result = its sequential pristine result; vacuity guard: racy canary outcomes. (d) E3-fine: the same scheduler driven by function-entry events of a second build of fast_qr (opt-level 0, -Zinstrument-mcount, nightly): 5 (thorough 8) thread programs incl. terminal and SVG renders of two sizes in opposite orders; all interleavings with <= 1 preemption at the first k (quick 1, thorough 3) entries of every (function, call site) pair per operation; expectations from fresh single-threaded processes. Supplementary (sampling, not part of the verdict basis): free-running 16-thread pass. non-trivial = a build or render was observed; distinct = distinct observation digests");
     col.assume("E3 (c) preempts at the guarded scheduling points (hook H3), E3-fine (d) at function entries inside the crate (first k per function and call site): a window that contains no call at all is not split; memory-ordering effects weaker than sequential consistency are out of scope (the crate has no atomics)");
     let thorough = ctx.tier.thorough();
 
@@ -731,6 +840,45 @@ pub fn run(ctx: &Ctx) -> Collector {
         }
     }
     col.space(json!({"name": "(a') tie inputs after predecessors", "cases": tie_runs, "tie_inputs": ties.len(), "predecessors": preds.len(), "what": "inputs whose documented selection is a tie (found with R), each built right after each of up to 8 predecessors with different documented winners and after itself; result = pristine process", "exhaustive": true}));
+    // (a'') the same input held by 64 live builders (their buffers lie at different addresses and alignments): every one
+    // of them builds the pristine result
+    let alias_inputs: Vec<Vec<u8>> = vec![
+        b"HTTPS://EXAMPLE.COM/FAST-QR/ADDRESS/INDEPENDENT/CLASSIFICATION/0123456".to_vec(),
+        b"0123456789012345678901234567890123456789012345678901234567890123".to_vec(),
+        b"https://example.com/fast-qr/address/independent/classification/of/a/longer/lower-case/text/0123456789".to_vec(),
+        b"ABCDEFGHIJKLMNOPQRSTUVWXYZ $%*+-./".to_vec(),
+        b"A1".to_vec(),
+    ];
+    {
+        let keys: Vec<PCase> = alias_inputs.iter().map(|i| PCase { input: i.clone(), opts: Opts::default(), render: Render::None }).collect();
+        match pristine_each(&keys) {
+            Ok(exp) => {
+                for (ai, input) in alias_inputs.iter().enumerate() {
+                    let mut live: Vec<QRBuilder> = vec![];
+                    let mut pad: Vec<Vec<u8>> = vec![];
+                    for j in 0..64usize {
+                        // odd-sized allocations in between shift the next buffer
+                        pad.push(vec![0u8; 8 + 24 * (j % 5)]);
+                        live.push(QRBuilder::new(input.clone()));
+                    }
+                    for (j, b) in live.iter().enumerate() {
+                        let got = subject::outcome_digest(&match subject::guarded(|| b.build()) {
+                            Ok(r) => subject::classify(r),
+                            Err(m) => Outcome::Panic(m),
+                        });
+                        col.eval(Some(crate::util::fnv(format!("alias{}-{}", ai, j).as_bytes())));
+                        if exp.get(&keys[ai]) != Some(&got) {
+                            col.violation((0, (500 + ai * 64 + j) as u64), "C14/address-dependent-build".into(), format!("builder #{} of 64 live builders holding the same {}-byte input builds something else than a pristine process does", j, input.len()), json!({"kind": "alias", "input_hex": crate::util::hex(input), "builder": j}));
+                            break;
+                        }
+                    }
+                    drop(pad);
+                }
+            }
+            Err(e) => col.machinery_error(format!("pristine children: {}", e)),
+        }
+        col.space(json!({"name": "(a'') one input in 64 live builders", "cases": alias_inputs.len() * 64, "what": "5 inputs (alphanumeric 70 bytes, 64 digits, lower-case 100 bytes, the 34-character alphanumeric alphabet, 2 bytes) each held by 64 builders that are alive at the same time, with odd-sized allocations in between: every builder builds the pristine result", "exhaustive": true}));
+    }
     let states: Mutex<HashSet<(usize, Opts)>> = Mutex::new(HashSet::new());
     let transitions = AtomicU64::new(0);
     let mut nseq = 0u64;
@@ -757,6 +905,35 @@ pub fn run(ctx: &Ctx) -> Collector {
     let n_states_a = states.lock().unwrap().len() as u64;
     col.space(json!({"name": "(a) builder histories", "cases": nseq, "depth": depth, "model_states": n_states_a, "transitions": transitions.load(Ordering::Relaxed), "what": "all call sequences of exactly that depth on a shared builder per input, every build step compared with a pristine child process", "exhaustive": true, "wall_s": (t0.elapsed().as_secs_f64() * 100.0).round() / 100.0}));
     col.sample(json!({"kind": "history", "input_index": 0, "sequence": [BOp::Mask(5).to_json(), BOp::Build.to_json(), BOp::Other(0).to_json(), BOp::Build.to_json()]}));
+
+    // ---- (e) first-use orders: the same builds and renders in 7 fresh processes, each in another order of sizes
+    {
+        let te = std::time::Instant::now();
+        let maps: Mutex<Vec<Option<BTreeMap<String, u64>>>> = Mutex::new(vec![None; N_ORDERS]);
+        pool::par_for(N_ORDERS, |o| match order_child(o) {
+            Ok(m) => maps.lock().unwrap()[o] = Some(m),
+            Err(e) => col.machinery_error(e),
+        });
+        let maps = maps.into_inner().unwrap();
+        let mut keys = 0usize;
+        if let Some(Some(base)) = maps.first() {
+            keys = base.len();
+            for (o, m) in maps.iter().enumerate().skip(1) {
+                let m = match m {
+                    Some(m) => m,
+                    None => continue,
+                };
+                for (k, d) in base {
+                    col.eval(Some(crate::util::fnv(format!("order{}{}", o, k).as_bytes())));
+                    if m.get(k) != Some(d) {
+                        col.violation((9, o as u64), "C14/first-use-order-dependent".into(), format!("observation {} (b<version>m<mask> = forced build, auto = automatic build, t/s/si/p/pf = terminal, SVG, SVG with layers and image, PNG, fitted PNG of that symbol) differs between a process that works through versions {:?} and one that works through {:?}", k, order_sequence(0), order_sequence(o)), json!({"kind": "first-use-order", "order_a": 0, "order_b": o, "key": k}));
+                        break;
+                    }
+                }
+            }
+        }
+        col.space(json!({"name": "(e) first-use orders", "cases": keys * N_ORDERS, "orders": N_ORDERS, "observations_per_order": keys, "what": "for versions 1,2,3,5,7,10,20,40: the 8 forced-mask builds, the automatic build and its terminal / SVG / layered SVG with image / PNG / fitted PNG renders, in 7 fresh processes that go through the versions in different orders (ascending, descending, starting at 2, 3, 5, 7, zig-zag from 40): every observation equal across processes", "exhaustive": true, "wall_s": (te.elapsed().as_secs_f64() * 100.0).round() / 100.0}));
+    }
 
     // ---- (b) renderer histories
     let t1 = std::time::Instant::now();
